@@ -1,6 +1,7 @@
 import Driver.Common
 import LinkVerif.Model.Ledger
 import LinkVerif.Model.LedgerR
+import LinkVerif.Model.LedgerX
 
 namespace Driver.C07
 open Go.Proto Model.Ledger Driver
@@ -160,6 +161,21 @@ structure DR where
   contract account: the value a successful call leaves with the contract is booked on the `z` bucket (zero address +
   contract), which the harness prints the same way -/
   vcalls : List (Nat × Nat × Int) := []
+  /-- extended observation (Model.LedgerX) and the value movements of the contract transactions the dry run saw succeed, by
+  transaction id; `ncreate`: number of `create` ops so far (each aims at one more observed address); `prev`: the state the
+  last committed block started from (for `recs`) -/
+  x : XS := {}
+  effs : List (Nat × List Prim) := []
+  ncreate : Nat := 0
+  /-- (sender, nonce, kind) of the creation each created bucket belongs to: the creation address is a function of these three,
+  a second `create` with the same three aims at the same address (same bucket) -/
+  ckeys : List (Nat × Nat × String) := []
+  prev : Option (St × XS) := none
+  /-- calls addressed to a created instance: (transaction id, instance, gas limit, value, the call is a SELFDESTRUCT) -/
+  dests : List (Nat × Nat × Int × Int × Bool) := []
+  /-- instances a committed SELFDESTRUCT removed: their address has no code any more, so the basic check judges a transaction
+  addressed to them by the plain-transfer rule (gas limit = exactly the transfer gas) BEFORE any state check -/
+  dead : List Nat := []
 
 /-- book the value of the successful value-carrying calls among the transactions `ids` (with receipt statuses `sts`) -/
 def bookCalls (vcalls : List (Nat × Nat × Int)) (ids : List Nat) (sts : List Bool) (s : St) : St :=
@@ -175,7 +191,136 @@ def bookCalls (vcalls : List (Nat × Nat × Int)) (ids : List Nat) (sts : List B
 def alignSts (sts : List (List Bool)) (s' : St) : List (List Bool) :=
   if s'.blocks.length > sts.length then sts ++ [List.replicate ((s'.blocks.getLast?.getD []).length) true] else sts
 
+
+/-- book the movements of the successful contract transactions among `ids` (receipt statuses `sts`) -/
+def bookEffs (effs : List (Nat × List Prim)) (ids : List Nat) (sts : List Bool) (sx : St × XS) : St × XS :=
+  (ids.zipIdx).foldl (fun acc (id, i) =>
+    match effs.find? (fun c => c.1 == id) with
+    | some (_, ps) => if sts.getD i true then applyPrims acc ps else acc
+    | none => acc) sx
+
+def intrinsicOf (kind : String) : Int :=
+  match kind with
+  | "ok" => 63908 | "empty" => 53004 | "revert" => 53212 | "invalid" => 53068 | "big" => 53344 | "max" => 53280 | "json" => 53476
+  | _ => 0
+
+/-- a<i> account, b<k> beneficiary, m the Mover, c<j> the address of the j-th `create` -/
+def targetOf (t : String) : Option Bk :=
+  if t == "m" then some (.x 0) else
+  match t.toList with
+  | 'a' :: r => (String.ofList r).toNat?.map Bk.acct
+  | 'b' :: r => (String.ofList r).toNat?.map (fun k => Bk.x (1 + k))
+  | 'c' :: r => (String.ofList r).toNat?.map (fun j => Bk.x (3 + j))
+  | _ => none
+
+def slash (a b : Int) : String := s!"{a}/{b}"
+
+def balxLine (s : St) (x : XS) : String :=
+  let ws := s.wallets.map (fun outs => "+".intercalate (sortStr ((outs.filter (!·.spent)).map (fun o => toString o.amount))))
+  let b := ",".intercalate [slash (geti x.xb 1) (geti x.xt 2), slash (geti x.xb 2) (geti x.xt 3)]
+  s!"a={showList s.bal} t={showList s.tok} f={s.found} z={s.zero} zt={geti x.xt 0} m={slash (geti x.xb 0) (geti x.xt 1)} b={b} c={showList (x.xb.drop 3)} w={"|".intercalate ws} pool={pool s} supply={nativeTotal s x} toksupply={tokenTotal s x}"
+
+def diffList (now old : List Int) : List Int := now.zipIdx.map (fun (v, i) => v - geti old i)
+
+/-- what the balance records of the last block must net to, per observed bucket: the change of the state, plus (for a
+contract that destroyed itself in its own favour) what was destroyed -/
+def recsLine (s : St) (x : XS) (s0 : St) (x0 : XS) : String :=
+  let c := (diffList (x.xb.drop 3) (x0.xb.drop 3)).zipIdx.map (fun (v, j) => v + geti x.rx (3 + j))
+  let b := ",".intercalate [slash (geti x.xb 1 - geti x0.xb 1) (geti x.xt 2 - geti x0.xt 2), slash (geti x.xb 2 - geti x0.xb 2) (geti x.xt 3 - geti x0.xt 3)]
+  s!"a={showList (diffList s.bal s0.bal)} t={showList (diffList s.tok s0.tok)} f={s.found - s0.found} z={s.zero - s0.zero} zt={geti x.xt 0 - geti x0.xt 0} m={slash (geti x.xb 0 - geti x0.xb 0) (geti x.xt 1 - geti x0.xt 1)} b={b} c={showList c} p={pool s - pool s0} mint=0 burn=0 unk=0"
+
+/-- the contract ops: the transaction is recorded as a self-transfer of 0 that pays the metered gas (as `call`); its value
+movements are remembered and booked when a block commits it with status 1 -/
+def contractOp (d : DR) (toks : List String) : Option (DR × String) :=
+  let from_ := (argI toks "from" 0).toNat
+  let v := argI toks "value" 0
+  let rec_ (broken : Option String) (ps : List Prim) (d : DR) : DR × String :=
+    let (s', a) := submit d.s { kind := .xfer, from_ := from_, to := from_, amount := 0, nonce := (argI toks "nonce" 0).toNat,
+                                gas := argI toks "used" 1000000, spends := (argI toks "st" 1).toNat, broken := broken }
+    let effs := if argI toks "st" 1 == 1 then d.effs ++ [(s'.txs.length - 1, ps)] else d.effs
+    ({ d with s := s', effs := effs }, a)
+  let illegal : Option String := some "other:illegal_gasLimit_or_gasPrice"
+  match toks with
+  | "create" :: _ =>
+    let kind := (arg? toks "kind").getD ""
+    if intrinsicOf kind == 0 then some (d, "bad-kind") else
+    let gas := argI toks "gas" 1000000
+    let key := (from_, (argI toks "nonce" 0).toNat, kind)
+    let known := d.ckeys.findIdx? (· == key)
+    let j := known.getD d.ncreate
+    let d := if known.isSome then d else
+      { d with ncreate := j + 1, ckeys := d.ckeys ++ [key], x := { d.x with xb := d.x.xb ++ [0], rx := d.x.rx ++ [0] } }
+    let broken := if argI toks "gpd" 0 != 0 then illegal
+      else if gas < intrinsicOf kind then illegal
+      else if v > 0 && calGas v > gas then illegal
+      else if kind == "json" && calGas v != gas then illegal
+      else none
+    some (rec_ broken [.move false (.acct from_) (.x (3 + j)) (some v)] d)
+  | "mcall" :: _ =>
+    match targetOf ((arg? toks "to").getD "") with
+    | none => some (d, "bad-target")
+    | some t =>
+      let at_ := argI toks "at" (-1)
+      if at_ ≥ 0 && at_.toNat ≥ d.ncreate then some (d, "bad-target") else
+      let dst : Bk := if at_ ≥ 0 then .x (3 + at_.toNat) else .x 0
+      let tok := argI toks "tok" 0 == 1
+      let src : Bk := .acct from_
+      let deadDst := at_ ≥ 0 && d.dead.contains at_.toNat && argI toks "gas" 1000000 != calGas v
+      let d := if at_ ≥ 0 then { d with dests := d.dests ++ [(d.s.txs.length, at_.toNat, argI toks "gas" 1000000, v, argI toks "m" 0 == 2)] } else d
+      let ps : List Prim :=
+        match argI toks "m" 0 with
+        | 1 | 3 => [.move false src dst (some v), .move false dst t (some v)]
+        | 2 => if t == dst then [.move false src dst (some v), .burn dst] else [.move false src dst (some v), .move false dst t none]
+        | 4 => [.move tok src dst (some v), .move tok dst t (some v)]
+        | 7 => [.move false src dst (some v), .move false dst t (some (v / 2))]
+        | 8 => [.move false src dst (some v), .move false dst t none]
+        | _ => [.move tok src dst (some v)]
+      some (rec_ (if deadDst then illegal else pricedOf toks) ps d)
+  | "calltok" :: _ => some (rec_ (pricedOf toks) [.move true (.acct from_) .zero (some v)] d)
+  | "xferx" :: _ =>
+    match targetOf ((arg? toks "to").getD "") with
+    | none => some (d, "bad-target")
+    | some t =>
+      let amount := argI toks "amount" 1
+      let broken := if argI toks "gpd" 0 != 0 then illegal
+        else if argI toks "gas" (-1) ≥ 0 && argI toks "gas" (-1) != calGas amount then illegal else none
+      some (rec_ broken [.move false (.acct from_) t (some amount)] d)
+  | "uxbad" :: _ =>
+    let shape := (arg? toks "shape").getD ""
+    let cls := match shape with
+      | "ainaout" => "other:input_type_not_expect" | "aout2" => "other:account_output_too_more" | _ => "other:account_outputs_illegal"
+    if shape != "ainaout" && shape != "aout2" && shape != "cout" then some (d, "bad-shape") else
+    if shape != "ainaout" && ((d.s.wallets.getD (argI toks "w" 0).toNat [])[(argI toks "in" 0).toNat]?).isNone then some (d, "noinput") else
+    let (s', a) := submit d.s { kind := .uin, spends := 0, outs := [], gas := 0, broken := some cls }
+    some ({ d with s := s' }, a)
+  | "replay" :: _ =>
+    let id := argI toks "id" 0
+    match d.dests.find? (fun e => id ≥ 0 && e.1 == id.toNat) with
+    | some (_, j, gas, v, _) =>
+      if d.dead.contains j && gas != calGas v then some (d, "admit=other:illegal_gasLimit_or_gasPrice") else none
+    | none => none
+  | "balx" :: _ => some (d, balxLine d.s d.x)
+  | "recs" :: _ =>
+    match d.prev with
+    | none => some (d, "norecords")
+    | some (s0, x0) => some (d, recsLine d.s d.x s0 x0)
+  | _ => none
+
+/-- after a committed block: book the contract movements, remember where the block started -/
+def commitX (d : DR) (before : St) (ids : List Nat) (sts : List Bool) (s' : St) : DR :=
+  let x0 := { d.x with rx := d.x.rx.map (fun _ => 0) }
+  let (s'', x') := bookEffs d.effs ids sts (s', x0)
+  -- a SELFDESTRUCT that the dry run saw succeed (it has movements booked) and that this block executed removes its instance
+  let killed := (ids.zipIdx).filterMap (fun (id, i) =>
+    match d.dests.find? (fun e => e.1 == id) with
+    | some (_, j, _, _, true) => if sts.getD i true && (d.effs.find? (fun c => c.1 == id)).isSome then some j else none
+    | _ => none)
+  { d with s := s'', x := x', prev := some (before, x0), dead := d.dead ++ killed }
+
 def stepR (d : Option DR) (toks : List String) : Option DR × String :=
+  match d.bind (fun d => contractOp d toks) with
+  | some (d', a) => (some d', a)
+  | none =>
   match d, toks with
   | some d, "forceblock" :: _ =>
     let ids := ((arg? toks "ids").getD "").splitOn "," |>.filterMap String.toNat? |>.filter (· < d.s.txs.length)
@@ -185,7 +330,7 @@ def stepR (d : Option DR) (toks : List String) : Option DR × String :=
       -- after a foreign block: C15): invalidated transactions are dropped
       let s0 := { s' with pending := [], poolImgs := [] }
       let s'' := s'.pending.foldl (fun acc id => match acc.txs[id]? with | some t => (checkState acc id t).2 | none => acc) s0
-      (some { d with s := bookCalls d.vcalls ids sts s'', sts := d.sts ++ [sts] }, s!"h={s'.height} txs={",".intercalate (ids.map toString)}")
+      (some (commitX { d with sts := d.sts ++ [sts] } d.s ids sts (bookCalls d.vcalls ids sts s'')), s!"h={s'.height} txs={",".intercalate (ids.map toString)}")
     else (some { d with s := s' }, r)
   | some d, "receipts" :: _ =>
     let s := d.s
@@ -216,7 +361,12 @@ def stepR (d : Option DR) (toks : List String) : Option DR × String :=
         | _ => vc0
       -- a block committed through the strict path: every receipt has status 1
       let s'' := if s'.blocks.length > old then bookCalls vc (s'.blocks.getLast?.getD []) [] s' else s'
-      (some { s := s'', sts := alignSts ((d.map (·.sts)).getD []) s', vcalls := vc }, a)
+      let d0 : DR := match toks with
+        | "chain" :: _ => { s := s'' }
+        | _ => (d.getD { s := s'' })
+      let d1 : DR := { d0 with s := s'', sts := alignSts ((d.map (·.sts)).getD []) s', vcalls := vc }
+      let d2 := if s'.blocks.length > old then commitX d1 ((d.map (·.s)).getD s') (s'.blocks.getLast?.getD []) [] s'' else d1
+      (some d2, a)
 
 def machine : Machine := { σ := Option DR, init := none, step := stepR }
 
